@@ -315,10 +315,11 @@ class SchedulingSolver(BaseModelWithJson):
                         z3.IntSort(),
                         z3.IntSort(),
                     )
+                    # a task that is not scheduled does not access the buffer
                     asst = z3.ForAll(
                         x,
                         z3.If(
-                            x == t._start,
+                            z3.And(x == t._start, t._scheduled),
                             f(x) == -buffer._unloading_tasks[t],
                             f(x) == 0,
                         ),
@@ -336,7 +337,9 @@ class SchedulingSolver(BaseModelWithJson):
                     asst = z3.ForAll(
                         x,
                         z3.If(
-                            x == t._end, f(x) == +buffer._loading_tasks[t], f(x) == 0
+                            z3.And(x == t._end, t._scheduled),
+                            f(x) == +buffer._loading_tasks[t],
+                            f(x) == 0,
                         ),
                     )
                     self.append_z3_assertion(asst)
@@ -368,17 +371,25 @@ class SchedulingSolver(BaseModelWithJson):
                 buffer_mapping = z3.Array(
                     f"Buffer_{buffer.name}_mapping", z3.IntSort(), z3.IntSort()
                 )
+                # a task that is not scheduled does not access the buffer: the
+                # quantity mapped to its (negative) point in the past is zero
                 for t in buffer._unloading_tasks:
                     self.append_z3_assertion(
                         buffer_mapping
                         == z3.Store(
-                            buffer_mapping, t._start, -buffer._unloading_tasks[t]
+                            buffer_mapping,
+                            t._start,
+                            z3.If(t._scheduled, -buffer._unloading_tasks[t], 0),
                         )
                     )
                 for t in buffer._loading_tasks:
                     self.append_z3_assertion(
                         buffer_mapping
-                        == z3.Store(buffer_mapping, t._end, +buffer._loading_tasks[t])
+                        == z3.Store(
+                            buffer_mapping,
+                            t._end,
+                            z3.If(t._scheduled, +buffer._loading_tasks[t], 0),
+                        )
                     )
                 # and, for the other, the buffer level i+1 is the buffer level i +/- the buffer change
                 for i in range(len(buffer._buffer_levels) - 1):
@@ -621,6 +632,19 @@ class SchedulingSolver(BaseModelWithJson):
                 new_buffer_solution.level,
                 new_buffer_solution.level_change_times,
             ) = clean_buffer_levels(level_values, change_level_times)
+            # negative change times belong to tasks that are not scheduled:
+            # they do not change the level and are not reported
+            kept = [
+                i
+                for i, change_time in enumerate(new_buffer_solution.level_change_times)
+                if change_time >= 0
+            ]
+            new_buffer_solution.level = [new_buffer_solution.level[0]] + [
+                new_buffer_solution.level[i + 1] for i in kept
+            ]
+            new_buffer_solution.level_change_times = [
+                new_buffer_solution.level_change_times[i] for i in kept
+            ]
 
             solution.add_buffer_solution(new_buffer_solution)
         # process indicators
